@@ -14,6 +14,7 @@ import (
 	"regexp"
 	"strings"
 	"sync/atomic"
+	"unicode/utf8"
 )
 
 const (
@@ -448,6 +449,11 @@ func (tx *Transaction) VerifyTxBody(chainID uint16, timeStamp uint64, isBlockTx 
 	txMessageLength := len(tx.Message())
 	if txMessageLength > MaxTxMessageLength {
 		log.Warnf("The length of message field in transaction is out of max length limit. message length = %d. max length limit = %d. ", txMessageLength, MaxTxMessageLength)
+		return ErrTxMessage
+	}
+	// The message is shown and transferred as a JSON string. Bytes which are not valid UTF-8 are replaced in JSON, then the transaction's hash changes
+	if !utf8.ValidString(tx.Message()) {
+		log.Warnf("The message field in transaction is not valid UTF-8")
 		return ErrTxMessage
 	}
 	// data 存在校验
